@@ -1,3 +1,4 @@
 #!/bin/sh
 # run every quick check on the unchanged tree, one after the other (regenerates all evidence files)
-for p in C04 C05 C06 C07 C08 C10 C11 C12 C13 C14 C15 C16 C17 C18 C19 C01 C02 C03; do echo "=== $p"; bin/check $p --tier quick 2>&1 | grep -E 'INCONCL|VIOL|OK:|BUILD|KNOWN' | cut -c1-200; done
+cd /verif
+for p in C04 C05 C06 C07 C08 C09 C10 C11 C12 C13 C14 C15 C16 C17 C18 C19 C01 C02 C03; do echo "=== $p"; bin/check $p --tier quick 2>&1 | grep -E 'INCONCL|VIOL|OK:|BUILD|KNOWN' | cut -c1-200; echo "exit=$?"; done
